@@ -378,6 +378,27 @@ func eximsimExec(r *Run) {
 		if kind == "checkpoint-mismatch" {
 			config.Checkpoints = []chaincfg.Checkpoint{{Height: int32(ck), Hash: &ckHash}}
 		}
+		// the operator puts the RIGHT file in place and starts again on the same database: whatever the refused import
+		// left behind (rows, temporary indexes, pragmas) must not stand in the way - the database ends up exactly as
+		// after an import into an empty one
+		if berr != nil && t.Chance(1, 2, "good-file-after-refused") {
+			r.Step++
+			_, gerr := importInto(dbName, expFile)
+			got := biw.Snapshot()
+			closeRO(biw)
+			r.Probe("good-file-after-refused-import")
+			if gerr != nil {
+				r.Fail("C17", "good-file-refused-after-bad", kind, "after the import of a file with %s had been refused, the import of the exported file into the same database fails: %v", desc, gerr)
+			}
+			if len(got) != len(lc) {
+				r.Fail("C17", "good-file-refused-after-bad", kind+"|rows", "after a refused import (%s) the exported file was imported into the same database: %d rows, the export has %d", desc, len(got), len(lc))
+			}
+			for _, x := range lc {
+				if row, ok := got[x.HashStr()]; !ok || row.State != LLongest || row.Height != int64(x.Height) || row.Cumulated != x.Cum.String() {
+					r.Fail("C17", "good-file-refused-after-bad", kind+"|fields", "after a refused import (%s) and the import of the exported file, header %s is %+v", desc, short(x.Hash), row)
+				}
+			}
+		}
 	}
 	r.Shape = append(h.ShapeLines(), fmt.Sprintf("ck=%d bad=%v", ck, badKinds))
 	r.Nontrivial = nonLongest >= 1 && len(lc) >= 3 && len(badKinds) >= 1
